@@ -188,7 +188,8 @@ def nontrivial(c):
 def correspond(seed, tier):
     n = 30 if tier == "quick" else 300
     lines, expect = [], {}
-    dist = {"ops": {o: 0 for o in OPS}, "steps": 0}
+    gen_twin = set(proto.gen_entries())      # the Float reading of the workflow methods generated from stog.py, as a twin of every request
+    dist = {"ops": {o: 0 for o in OPS}, "steps": 0, "generated_code_twins": bool(gen_twin)}
     for i in range(n):
         c = gen(rng_for(seed, "corr12", i), i, tier)
         c["ops"] = [o for o in c["ops"] if o < 5]
@@ -198,9 +199,13 @@ def correspond(seed, tier):
             for k, op in enumerate(c["ops"]):
                 apply(st, op)
                 rid = f"wf{i}.{k}"
-                lines.append(proto.request(rid, "Wf.run", {}, [float(c["rsf"]), c["rho"], c["bcoh"], 1.0 if c["lowq"] else 0.0, c["cutoff"], dr,
-                                                              np.array(c["q"]), np.array(c["s"]), np.array(c["ops"][:k + 1], dtype=float)]))
+                wargs = [float(c["rsf"]), c["rho"], c["bcoh"], 1.0 if c["lowq"] else 0.0, c["cutoff"], dr,
+                         np.array(c["q"]), np.array(c["s"]), np.array(c["ops"][:k + 1], dtype=float)]
+                lines.append(proto.request(rid, "Wf.run", {}, wargs))
                 expect[rid] = snapshot(st)
+                if "GenStog.wfRun" in gen_twin:
+                    lines.append(proto.request("g" + rid, "GenStog.wfRun", {}, wargs))
+                    expect["g" + rid] = expect[rid]
                 dist["ops"][OPS[op]] += 1
                 dist["steps"] += 1
     res = proto.run_model(lines)
